@@ -24,6 +24,14 @@
 
 #define QB_RB_FILE_HEADER_VERSION 1
 
+#ifdef QB_VERIF_HOOKS
+/* verification hook: a scheduling point between two accesses to shared ring state */
+void qb_verif_yield(int point);
+#define QB_VERIF_YIELD(point) qb_verif_yield(point)
+#else
+#define QB_VERIF_YIELD(point) do { } while (0)
+#endif
+
 /*
  * #define CRAZY_DEBUG_PRINTFS 1
  */
@@ -432,12 +440,15 @@ qb_rb_chunk_alloc(struct qb_ringbuffer_s * rb, size_t len)
 		}
 	}
 
+	QB_VERIF_YIELD(1);
 	write_pt = rb->shared_hdr->write_pt;
 	/*
 	 * insert the chunk header
 	 */
 	rb->shared_data[write_pt] = 0;
+	QB_VERIF_YIELD(2);
 	QB_RB_CHUNK_MAGIC_SET(rb, write_pt, QB_RB_CHUNK_MAGIC_ALLOC);
+	QB_VERIF_YIELD(3);
 
 	/*
 	 * return a pointer to the beginning of the chunk data
@@ -480,13 +491,17 @@ qb_rb_chunk_commit(struct qb_ringbuffer_s * rb, size_t len)
 	 * commit the magic & chunk_size
 	 */
 	old_write_pt = rb->shared_hdr->write_pt;
+	QB_VERIF_YIELD(4);
 	rb->shared_data[old_write_pt] = len;
+	QB_VERIF_YIELD(5);
 
 	/*
 	 * commit the new write pointer
 	 */
 	rb->shared_hdr->write_pt = qb_rb_chunk_step(rb, old_write_pt);
+	QB_VERIF_YIELD(6);
 	QB_RB_CHUNK_MAGIC_SET(rb, old_write_pt, QB_RB_CHUNK_MAGIC);
+	QB_VERIF_YIELD(7);
 
 	DEBUG_PRINTF("commit [%zd] read: %u, write: %u -> %u (%u)\n",
 		     (rb->notifier.q_len_fn ?
@@ -547,12 +562,15 @@ _rb_chunk_reclaim(struct qb_ringbuffer_s * rb)
 
 	old_chunk_size = QB_RB_CHUNK_SIZE_GET(rb, old_read_pt);
 	new_read_pt = qb_rb_chunk_step(rb, old_read_pt);
+	QB_VERIF_YIELD(11);
 
 	/*
 	 * clear the header
 	 */
 	rb->shared_data[old_read_pt] = 0;
+	QB_VERIF_YIELD(12);
 	QB_RB_CHUNK_MAGIC_SET(rb, old_read_pt, QB_RB_CHUNK_MAGIC_DEAD);
+	QB_VERIF_YIELD(13);
 
 	/*
 	 * set the new read pointer after clearing the header
@@ -561,6 +579,7 @@ _rb_chunk_reclaim(struct qb_ringbuffer_s * rb)
 	 * header.
 	 */
 	rb->shared_hdr->read_pt = new_read_pt;
+	QB_VERIF_YIELD(14);
 
 	if (rb->notifier.reclaim_fn) {
 		rc = rb->notifier.reclaim_fn(rb->notifier.instance,
@@ -681,7 +700,9 @@ qb_rb_chunk_read(struct qb_ringbuffer_s * rb, void *data_out, size_t len,
 		}
 	}
 
+	QB_VERIF_YIELD(8);
 	chunk_size = QB_RB_CHUNK_SIZE_GET(rb, read_pt);
+	QB_VERIF_YIELD(9);
 	if (len < chunk_size) {
 		qb_util_log(LOG_ERR,
 			    "trying to recv chunk of size %d but %d available",
@@ -695,6 +716,7 @@ qb_rb_chunk_read(struct qb_ringbuffer_s * rb, void *data_out, size_t len,
 	memcpy(data_out,
 	       QB_RB_CHUNK_DATA_GET(rb, read_pt),
 	       chunk_size);
+	QB_VERIF_YIELD(10);
 
 	_rb_chunk_reclaim(rb);
 
